@@ -40,6 +40,7 @@ fn main() {
         "replay" => driver::cmd_replay(&args[2..]),
         "worker" => driver::cmd_worker(&args[2..]),
         "run-scenario" => driver::cmd_run_scenario(&args[2..]),
+        "refserve" => driver::cmd_refserve(),
         "gen" => driver::cmd_gen(&args[2..]),
         "local" => driver::cmd_local(&args[2..]),
         "minimize" => driver::cmd_minimize(&args[2..]),
